@@ -484,13 +484,11 @@ Section Generic.
   Proof. intros. split; [|split]; apply independent_commute; reflexivity. Qed.
 
   (* the excluded pairs really do not commute *)
-  Lemma dr_vs_grid_op_do_not_commute : forall o : @obj A, grid_ok o ->
-    ~ (fst (sstep (fst (sstep o (SDr []))) (SRmin (st_rmin (o_st o)))) =
-       fst (sstep (fst (sstep o (SRmin (st_rmin (o_st o))))) (SDr [])) /\
-       fst (sstep (fst (sstep o (SDr [zero]))) (SRmin (st_rmin (o_st o)))) =
-       fst (sstep (fst (sstep o (SRmin (st_rmin (o_st o))))) (SDr [zero]))).
+  Lemma dr_vs_grid_op_do_not_commute : forall (o : @obj A) v,
+    ~ (fst (sstep (fst (sstep o (SDr []))) (SRmin v)) = fst (sstep (fst (sstep o (SRmin v))) (SDr [])) /\
+       fst (sstep (fst (sstep o (SDr [zero]))) (SRmin v)) = fst (sstep (fst (sstep o (SRmin v))) (SDr [zero]))).
   Proof.
-    intros o G [E1 E2]. apply (f_equal o_dr) in E1. apply (f_equal o_dr) in E2. cbn in E1, E2.
+    intros o v [E1 E2]. apply (f_equal o_dr) in E1. apply (f_equal o_dr) in E2. cbn in E1, E2.
     rewrite E1 in E2. discriminate.
   Qed.
 
@@ -528,4 +526,284 @@ Section Generic.
     apply (f_equal (fun r => o_files (fst r))) in K. cbn in K. injection K as K.
     apply (f_equal (@length nat)) in K. rewrite !app_length in K. cbn in K. lia.
   Qed.
+
+  (* ---------------------------------------------------------------- *)
+  (* g. the constructor is a setter script and agrees with kwargs2attr *)
+  (* ---------------------------------------------------------------- *)
+  Lemma obj_init_is_obj_of : @obj_init A _ = obj_of defaults.
+  Proof. reflexivity. Qed.
+
+  (* the three stages of the script, from the fresh object of ANY settings s0 *)
+  Definition tail1 (j : @json A) (rmax_now : A) : list (@sop A) :=
+    (match j_rdelta j, j_rpoints j with
+     | Some d, _ => [SRdelta d]
+     | None, Some n => [SRdelta (rmax_now / n)]
+     | None, None => []
+     end) ++ opt_op (j_rho j) SRho ++ opt_op (j_lowq j) SLowq ++ opt_op (j_lorch j) SLorch.
+  Definition tail2 (j : @json A) : list (@sop A) :=
+    (match j_ff j with Some (Some c) => [SCutoff c] | _ => [] end)
+    ++ opt_op (j_bcoh j) SBcoh ++ opt_op (j_btot j) SBtot
+    ++ (match j_merge j with
+        | Some m => [SMerge m] ++ opt_op (j_qmin j) (fun q => SQmin (Some q)) ++ opt_op (j_qmax j) (fun q => SQmax (Some q))
+        | None => []
+        end).
+
+  Lemma ctor_ops_tail_split : forall j r, ctor_ops_tail j r = tail1 j r ++ tail2 j.
+  Proof. intros j r. unfold ctor_ops_tail, tail1, tail2. rewrite <- !app_assoc. reflexivity. Qed.
+
+  Lemma head_spec : forall (j : @json A) s0,
+    srun (obj_of s0) (ctor_ops_head j) =
+      match fn_of (j_fn j) (st_fn s0) with
+      | Err _ => (obj_of s0, Some SValueError)
+      | Ok g => (obj_of {| st_fn := g; st_rmin := opt_or (j_rmin j) (st_rmin s0); st_rmax := opt_or (j_rmax j) (st_rmax s0);
+                           st_rdelta := st_rdelta s0; st_rho := st_rho s0; st_bcoh := st_bcoh s0; st_btot := st_btot s0;
+                           st_lowq := st_lowq s0; st_lorch := st_lorch s0; st_cutoff := st_cutoff s0;
+                           st_merge := st_merge s0; st_qmin := st_qmin s0; st_qmax := st_qmax s0 |}, None)
+      end.
+  Proof.
+    intros [fn rmin rmax rdelta rpoints rho lowq lorch ff bcoh btot merge qmin qmax] s0. unfold ctor_ops_head.
+    destruct s0 as [x1 x2 x3 x4 x5 x6 x7 x8 x9 x10 x11 x12 x13].
+    cbn [j_fn j_rmin j_rmax st_fn st_rmin st_rmax st_rdelta st_rho st_bcoh st_btot st_lowq st_lorch st_cutoff st_merge st_qmin st_qmax].
+    destruct fn as [[g|]|], rmin, rmax; reflexivity.
+  Qed.
+
+  Lemma tail1_spec : forall (j : @json A) s0,
+    srun (obj_of s0) (tail1 j (st_rmax s0)) =
+      let s1 := {| st_fn := st_fn s0; st_rmin := st_rmin s0; st_rmax := st_rmax s0;
+                   st_rdelta := match j_rdelta j, j_rpoints j with
+                                | Some d, _ => d | None, Some n => st_rmax s0 / n | None, None => st_rdelta s0 end;
+                   st_rho := opt_or (j_rho j) (st_rho s0); st_bcoh := st_bcoh s0; st_btot := st_btot s0;
+                   st_lowq := st_lowq s0; st_lorch := st_lorch s0; st_cutoff := st_cutoff s0;
+                   st_merge := st_merge s0; st_qmin := st_qmin s0; st_qmax := st_qmax s0 |} in
+      match flag_of (j_lowq j) (st_lowq s0) with
+      | Err _ => (obj_of s1, Some STypeError)
+      | Ok lq =>
+        let s2 := {| st_fn := st_fn s1; st_rmin := st_rmin s1; st_rmax := st_rmax s1; st_rdelta := st_rdelta s1;
+                     st_rho := st_rho s1; st_bcoh := st_bcoh s1; st_btot := st_btot s1;
+                     st_lowq := lq; st_lorch := st_lorch s1; st_cutoff := st_cutoff s1;
+                     st_merge := st_merge s1; st_qmin := st_qmin s1; st_qmax := st_qmax s1 |} in
+        match flag_of (j_lorch j) (st_lorch s0) with
+        | Err _ => (obj_of s2, Some STypeError)
+        | Ok lo => (obj_of {| st_fn := st_fn s2; st_rmin := st_rmin s2; st_rmax := st_rmax s2; st_rdelta := st_rdelta s2;
+                              st_rho := st_rho s2; st_bcoh := st_bcoh s2; st_btot := st_btot s2;
+                              st_lowq := st_lowq s2; st_lorch := lo; st_cutoff := st_cutoff s2;
+                              st_merge := st_merge s2; st_qmin := st_qmin s2; st_qmax := st_qmax s2 |}, None)
+        end
+      end.
+  Proof.
+    intros [fn rmin rmax rdelta rpoints rho lowq lorch ff bcoh btot merge qmin qmax] s0. unfold tail1.
+    destruct s0 as [x1 x2 x3 x4 x5 x6 x7 x8 x9 x10 x11 x12 x13].
+    cbn [j_rdelta j_rpoints j_rho j_lowq j_lorch]. cbv zeta. cbn [st_fn st_rmin st_rmax st_rdelta st_rho st_bcoh st_btot st_lowq st_lorch st_cutoff st_merge st_qmin st_qmax].
+    destruct rdelta, rpoints, rho, lowq as [[b|]|], lorch as [[b'|]|]; reflexivity.
+  Qed.
+
+  Lemma tail2_spec : forall (j : @json A) s0,
+    srun (obj_of s0) (tail2 j) =
+      (obj_of {| st_fn := st_fn s0; st_rmin := st_rmin s0; st_rmax := st_rmax s0; st_rdelta := st_rdelta s0;
+                 st_rho := st_rho s0;
+                 st_bcoh := opt_or (j_bcoh j) (st_bcoh s0); st_btot := opt_or (j_btot j) (st_btot s0);
+                 st_lowq := st_lowq s0; st_lorch := st_lorch s0;
+                 st_cutoff := match j_ff j with Some (Some c) => c | _ => st_cutoff s0 end;
+                 st_merge := opt_or (j_merge j) (st_merge s0);
+                 st_qmin := match j_merge j, j_qmin j with Some _, Some q => Some q | _, _ => st_qmin s0 end;
+                 st_qmax := match j_merge j, j_qmax j with Some _, Some q => Some q | _, _ => st_qmax s0 end |}, None).
+  Proof.
+    intros [fn rmin rmax rdelta rpoints rho lowq lorch ff bcoh btot merge qmin qmax] s0. unfold tail2.
+    destruct s0 as [x1 x2 x3 x4 x5 x6 x7 x8 x9 x10 x11 x12 x13].
+    cbn [j_ff j_bcoh j_btot j_merge j_qmin j_qmax st_fn st_rmin st_rmax st_rdelta st_rho st_bcoh st_btot st_lowq st_lorch st_cutoff st_merge st_qmin st_qmax].
+    destruct ff as [[c|]|], bcoh, btot, merge, qmin, qmax; reflexivity.
+  Qed.
+
+  (* closed form of the constructor *)
+  Lemma construct_ok_obj_of : forall (j : @json A) s, kwargs2attr j = Ok s -> construct j = (obj_of s, None).
+  Proof.
+    intros j s E. unfold construct. rewrite obj_init_is_obj_of, head_spec.
+    unfold kwargs2attr in E. cbn [defaults st_fn st_rmin st_rmax st_rdelta st_rho st_bcoh st_btot st_lowq st_lorch st_cutoff st_merge st_qmin st_qmax] in E |- *.
+    destruct (fn_of (j_fn j) gg) as [g|e]; [|discriminate].
+    cbn [obj_of o_st st_rmax].
+    rewrite ctor_ops_tail_split, srun_app, tail1_spec. cbv zeta. cbn [st_fn st_rmin st_rmax st_rdelta st_rho st_bcoh st_btot st_lowq st_lorch st_cutoff st_merge st_qmin st_qmax].
+    destruct (flag_of (j_lowq j) false) as [lq|e]; [|discriminate].
+    destruct (flag_of (j_lorch j) false) as [lo|e]; [|discriminate].
+    rewrite tail2_spec. cbn [st_fn st_rmin st_rmax st_rdelta st_rho st_bcoh st_btot st_lowq st_lorch st_cutoff st_merge st_qmin st_qmax]. injection E as <-.
+    destruct (j_merge j), (j_qmin j), (j_qmax j), (j_ff j) as [[c|]|]; reflexivity.
+  Qed.
+
+  Lemma construct_ok : forall (j : @json A) s, kwargs2attr j = Ok s ->
+    exists o, construct j = (o, None) /\ o_st o = s /\ o_dr o = rgrid s /\ titles_ok o.
+  Proof.
+    intros j s E. exists (obj_of s). split; [apply construct_ok_obj_of; exact E|].
+    split; [reflexivity|]. split; [reflexivity|]. repeat split; reflexivity.
+  Qed.
+
+  Lemma construct_err : forall (j : @json A) e, kwargs2attr j = Err e ->
+    exists o e', construct j = (o, Some e') /\
+      (e = ValueError <-> e' = SValueError) /\ (e = TypeError <-> e' = STypeError).
+  Proof.
+    intros j e E. unfold construct. rewrite obj_init_is_obj_of, head_spec.
+    unfold kwargs2attr in E.
+    destruct (fn_of (j_fn j) (st_fn defaults)) as [g|e0] eqn:Ef.
+    - match goal with |- context [obj_of ?s1] => set (s1' := s1) end.
+      change (st_rmax (o_st (obj_of s1'))) with (st_rmax s1').
+      rewrite ctor_ops_tail_split. 
+      assert (K : exists o, srun (obj_of s1') (tail1 j (st_rmax s1')) = (o, Some STypeError) /\ e = TypeError).
+      { rewrite tail1_spec. cbv zeta.
+        change (st_lowq s1') with (st_lowq (@defaults A _)). change (st_lorch s1') with (st_lorch (@defaults A _)).
+        destruct (flag_of (j_lowq j) (st_lowq defaults)) as [lq|e1] eqn:E1.
+        - destruct (flag_of (j_lorch j) (st_lorch defaults)) as [lo|e2] eqn:E2; [discriminate|].
+          eexists; split; [reflexivity|]. injection E as <-.
+          destruct (j_lorch j) as [[b|]|]; cbn in E2; congruence.
+        - eexists; split; [reflexivity|]. injection E as <-.
+          destruct (j_lowq j) as [[b|]|]; cbn in E1; congruence. }
+      destruct K as (o & Ko & ->). exists o, STypeError. rewrite srun_app, Ko.
+      split; [reflexivity|]. split; split; (reflexivity || discriminate).
+    - exists (obj_of defaults), SValueError. split; [reflexivity|]. injection E as <-.
+      assert (e0 = ValueError) as -> by (destruct (j_fn j) as [[g|]|]; cbn in Ef; congruence).
+      split; split; (reflexivity || discriminate).
+  Qed.
+
+  (* conversely: the script succeeds only if kwargs2attr accepts *)
+  Lemma construct_ok_only_if : forall (j : @json A) o, construct j = (o, None) ->
+    exists s, kwargs2attr j = Ok s /\ o = obj_of s.
+  Proof.
+    intros j o E. destruct (kwargs2attr j) as [s|e] eqn:K.
+    - exists s. split; [reflexivity|]. rewrite (construct_ok_obj_of j s K) in E. congruence.
+    - destruct (construct_err j e K) as (o' & e' & E' & _). rewrite E' in E. discriminate.
+  Qed.
+
+  (* the constructor's script contains no dr setter and no title setter *)
+  Lemma forallb_opt_op : forall (T : Type) (x : option T) (f : T -> @sop A) (P : @sop A -> bool),
+    (forall v, P (f v) = true) -> forallb P (opt_op x f) = true.
+  Proof. intros T x f P HP. destruct x; cbn; [rewrite HP|]; reflexivity. Qed.
+
+  Lemma ctor_ops_no_dr_no_title : forall (j : @json A) r,
+    forallb (fun p => negb (is_dr_op p)) (ctor_ops_head j ++ ctor_ops_tail j r) = true /\
+    forallb (fun p => negb (is_title_op p)) (ctor_ops_head j ++ ctor_ops_tail j r) = true.
+  Proof.
+    intros j r. unfold ctor_ops_head, ctor_ops_tail.
+    split;
+      (destruct (j_rdelta j), (j_rpoints j), (j_ff j) as [[c|]|], (j_merge j);
+       repeat first [ rewrite forallb_app | rewrite forallb_opt_op by (intros; reflexivity)
+                    | progress cbn [forallb app is_dr_op is_title_op negb andb] ];
+       reflexivity).
+  Qed.
 End Generic.
+
+(* ------------------------------------------------------------------ *)
+(* h. non-vacuity: concrete scripts (any carrier)                      *)
+(* ------------------------------------------------------------------ *)
+Section Examples.
+  Context {A : Type} `{Num A}.
+
+  (* s.density = 2; s.dr = [0]; s.real_space_function = "G(r)"; s.gr_title = <7>; s.rmax = 10;
+     s.bcoh_sqrd = 2; s.real_space_function = "GK(r)"; s.stem_name = <3> *)
+  Definition ex_script : list (@sop A) :=
+    [SRho two; SDr [zero]; SFn (FnName gG); STgr 7; SRmax (of_Z 10); SBcoh two; SFn (FnName gGK); SStem 3].
+  (* s.density = 2; s.low_q_correction = "yes" (raises); s.density = 3 (not reached) *)
+  Definition ex_script_err : list (@sop A) := [SRho two; SLowq FlagOther; SRho (of_Z 3)].
+
+  Example error_keeps_state_nonvacuous :
+    snd (sstep (@obj_init A _) (SLowq FlagOther)) = Some STypeError /\
+    snd (sstep (@obj_init A _) (SFn FnBad)) = Some SValueError /\
+    snd (sstep (@obj_init A _) (SAppend 1)) = Some STypeError /\
+    snd (sstep (@obj_init A _) (SExtend [1])) = Some SAttributeError.
+  Proof. repeat split; reflexivity. Qed.
+
+  Example srun_error_prefix_nonvacuous :
+    exists o', srun obj_init ex_script_err = (o', Some STypeError) /\
+      ex_script_err = [SRho two] ++ SLowq FlagOther :: [SRho (of_Z 3)] /\
+      srun obj_init [SRho two] = (o', None) /\ snd (sstep o' (SLowq FlagOther)) = Some STypeError /\
+      st_rho (o_st o') = two.
+  Proof. eexists. repeat split; reflexivity. Qed.
+
+  (* b: the script has a dr setter, then a grid setter, then no dr setter; it runs without error; the grid
+     stored in between ([0]) is gone at the end *)
+  Example grid_ok_last_grid_op_nonvacuous :
+    ex_script = [SRho two; SDr [zero]; SFn (FnName gG); STgr 7] ++ SRmax (of_Z 10) :: [SBcoh two; SFn (FnName gGK); SStem 3] /\
+    is_grid_op (SRmax (of_Z 10) : @sop A) = true /\
+    forallb (fun q : @sop A => negb (is_dr_op q)) [SBcoh two; SFn (FnName gGK); SStem 3] = true /\
+    snd (srun obj_init ex_script) = None /\
+    o_dr (fst (srun obj_init [SRho two; SDr [zero]])) = [zero] /\
+    o_dr (fst (srun obj_init ex_script)) = rgrid (o_st (fst (srun obj_init ex_script))) /\
+    st_rmax (o_st (fst (srun obj_init ex_script))) = of_Z 10.
+  Proof. repeat split; reflexivity. Qed.
+
+  Example grid_ok_run_nonvacuous :
+    grid_ok (@obj_init A _) /\
+    forallb (fun q : @sop A => negb (is_dr_op q)) [SRmin one; SRho two; SRdelta one; SLowq FlagOther] = true /\
+    st_rmin (o_st (fst (srun obj_init [SRmin one; SRho two; SRdelta one; SLowq FlagOther]))) = one.
+  Proof. repeat split; reflexivity. Qed.
+
+  (* c: a title setter, then the function-name setter, then no title setter *)
+  Example titles_ok_last_fn_nonvacuous :
+    ex_script = [SRho two; SDr [zero]; SFn (FnName gG); STgr 7; SRmax (of_Z 10); SBcoh two] ++ SFn (FnName gGK) :: [SStem 3] /\
+    forallb (fun q : @sop A => negb (is_title_op q)) [SStem 3] = true /\
+    o_tgr (fst (srun obj_init [SRho two; SDr [zero]; SFn (FnName gG); STgr 7])) = 7 /\
+    o_tgr (fst (srun obj_init ex_script)) = t_gr_of gGK /\
+    o_tgrft (fst (srun obj_init ex_script)) = t_grft_of gGK /\
+    o_tgrl (fst (srun obj_init ex_script)) = t_grl_of gGK.
+  Proof. repeat split; reflexivity. Qed.
+
+  Example titles_ok_run_nonvacuous :
+    titles_ok (@obj_init A _) /\
+    forallb (fun q : @sop A => negb (is_title_op q)) [SFn (FnName gG); SRho two; SFn FnBad] = true /\
+    st_fn (o_st (fst (srun obj_init [SFn (FnName gG); SRho two; SFn FnBad]))) = gG.
+  Proof. split; [apply titles_ok_init|]. repeat split; reflexivity. Qed.
+
+  (* d: SRho 2 is followed by no other SRho; the script never writes btot *)
+  Example lww_nonvacuous :
+    ex_script = [] ++ SRho two :: tl ex_script /\ writes_rho (SRho two : @sop A) = Some two /\
+    Forall (fun q : @sop A => writes_rho q = None) (tl ex_script) /\
+    Forall (fun q : @sop A => writes_btot q = None) ex_script /\
+    snd (srun obj_init ex_script) = None /\
+    st_rho (o_st (fst (srun obj_init ex_script))) = two /\
+    st_btot (o_st (fst (srun obj_init ex_script))) = one /\
+    st_fn (o_st (fst (srun obj_init ex_script))) = gGK.
+  Proof.
+    split; [reflexivity|]. split; [reflexivity|].
+    split; [repeat constructor|]. split; [repeat constructor|]. repeat split; reflexivity.
+  Qed.
+
+  (* e, f *)
+  Example independent_nonvacuous :
+    independent (SRmin one : @sop A) (SRmax two) = true /\ independent (SRho one : @sop A) (SFn (FnName gG)) = true /\
+    independent (STfix 0 9 : @sop A) (STfix 1 9) = true /\ independent (SAppend 1 : @sop A) (SStem 2) = true /\
+    independent (SDr [] : @sop A) (SRmin one) = false /\ independent (SFn (FnName gG) : @sop A) (STgr 7) = false /\
+    independent (SRho one : @sop A) (SRho two) = false /\ independent (SFiles None : @sop A) (SAppend 1) = false /\
+    independent (STfix 1 8 : @sop A) (STfix 1 9) = false.
+  Proof. repeat split; reflexivity. Qed.
+
+  Example setter_idempotent_nonvacuous :
+    snd (sstep (@obj_init A _) (SRmax two)) = None /\ is_accumulating (SRmax two : @sop A) = false /\
+    st_rmax (o_st (fst (sstep (@obj_init A _) (SRmax two)))) = two /\
+    is_accumulating (SAppend 1 : @sop A) = true /\ is_accumulating (SExtend [1] : @sop A) = true.
+  Proof. repeat split; reflexivity. Qed.
+
+  (* g: {"RealSpaceFunction": "G(r)", "Rmax": 10, "Rpoints": 2, "LorchFlag": true,
+         "Merging": {...}, Qmin 1} and two rejected configurations *)
+  Definition ex_json_ok : @json A :=
+    {| j_fn := Some (FnName gG); j_rmin := None; j_rmax := Some (of_Z 10); j_rdelta := None; j_rpoints := Some two;
+       j_rho := None; j_lowq := None; j_lorch := Some (FlagBool true); j_ff := Some None; j_bcoh := None; j_btot := None;
+       j_merge := Some default_merge; j_qmin := Some one; j_qmax := None |}.
+  Definition ex_json_bad_flag : @json A :=
+    {| j_fn := Some (FnName gG); j_rmin := None; j_rmax := Some (of_Z 10); j_rdelta := None; j_rpoints := None;
+       j_rho := Some two; j_lowq := Some FlagOther; j_lorch := None; j_ff := None; j_bcoh := None; j_btot := None;
+       j_merge := None; j_qmin := None; j_qmax := None |}.
+  Definition ex_json_bad_fn : @json A :=
+    {| j_fn := Some FnBad; j_rmin := None; j_rmax := None; j_rdelta := None; j_rpoints := None;
+       j_rho := None; j_lowq := Some FlagOther; j_lorch := None; j_ff := None; j_bcoh := None; j_btot := None;
+       j_merge := None; j_qmin := None; j_qmax := None |}.
+
+  Example construct_ok_nonvacuous :
+    exists s, kwargs2attr ex_json_ok = Ok s /\ st_rdelta s = div (of_Z 10) two /\ st_qmin s = Some one /\
+      ctor_ops_head ex_json_ok ++ ctor_ops_tail ex_json_ok (of_Z 10) =
+        [SFn (FnName gG); SRmax (of_Z 10); SRdelta (div (of_Z 10) two); SLorch (FlagBool true);
+         SMerge default_merge; SQmin (Some one)] /\
+      construct ex_json_ok = (obj_of s, None).
+  Proof. eexists. repeat split; reflexivity. Qed.
+
+  Example construct_err_nonvacuous :
+    kwargs2attr ex_json_bad_flag = Err TypeError /\ snd (construct ex_json_bad_flag) = Some STypeError /\
+    st_rho (o_st (fst (construct ex_json_bad_flag))) = two /\
+    kwargs2attr ex_json_bad_fn = Err ValueError /\ construct ex_json_bad_fn = (obj_init, Some SValueError).
+  Proof. repeat split; reflexivity. Qed.
+End Examples.
